@@ -115,7 +115,7 @@ def tlayout : GoType → Nat × Nat
     -- a trailing zero-size field is followed by one byte of padding (reflect.StructOf `lastzero`)
     let e' := if lastZero && e > 0 then e + 1 else e
     (alignUp e' a, a)
-  | .lib n => (if n == "Rec" then 16 else if n == "Tree" then 48 else 8, 8)     -- go/harness/types.go
+  | .lib n => (if n == "Rec" || n == "LT" then 16 else if n == "Tree" then 48 else if n == "LJ" || n == "LJP" then 24 else 8, 8)     -- go/harness/types.go
 /-- end offset, alignment, "the last field has size zero" after laying the fields out from `off` -/
 def flayout : List (String × Option Bytes × GoType) → Nat → Nat → Nat × Nat × Bool
   | [], off, a => (off, a, false)
